@@ -627,6 +627,22 @@ example : ((run {} [.reopen [d0, {}, {}] [] none, .deserializeFrom 1 0]).get 1).
 -- a rejected insertContour is the first touch: the glyph is loaded, nothing else changes
 example : (step (run {} [.reopen [d0, {}, {}] [] none]) (.insContour 0 0 ⟨some 2, []⟩)).2 = .err .assertion ∧
     ((step (run {} [.reopen [d0, {}, {}] [] none]) (.insContour 0 0 ⟨some 2, []⟩)).1.get 0).shallow = false := by decide
+-- refused calls as the first touch: a stranger Point handed to `removePoint` (the contour is fetched: the glyph is
+-- loaded), a detached contour (removed from glyph 1) handed to the shallow glyph 0's `removeContour`
+example : (step (run {} [.reopen [d0, {}, {}] [] none]) (.rmAbsentPoint 0 0)).2 = .err .value ∧
+    ((step (run {} [.reopen [d0, {}, {}] [] none]) (.rmAbsentPoint 0 0)).1.get 0).shallow = false := by decide
+example : (step (run {} [.reopen [d0, d0, {}] [] none, .rmContour 1 0]) (.rmAbsent 0 0 0)).2 = .err .index ∧
+    ((run {} [.reopen [d0, d0, {}] [] none, .rmContour 1 0]).get 0).shallow = true ∧
+    ((step (run {} [.reopen [d0, d0, {}] [] none, .rmContour 1 0]) (.rmAbsent 0 0 0)).1.get 0).shallow = false ∧
+    ((step (run {} [.reopen [d0, d0, {}] [] none, .rmContour 1 0]) (.rmAbsent 0 0 0)).1.get 0).reg = [3, 1, 2] := by
+  decide
+-- drawing into a shallow glyph: identifier 2 is reserved, the pen skips it; the glyph is loaded at the first endPath
+example : ((run {} [.reopen [d0, {}, {}] [] none, .draw 0 [⟨some 5, [⟨.line, some 2⟩]⟩] [] true]).get 0).contours
+    = [⟨some 1, [⟨.line, some 2⟩, ⟨.line, none⟩]⟩, ⟨some 5, [⟨.line, none⟩]⟩] ∧
+    ((run {} [.reopen [d0, {}, {}] [] none, .draw 0 [⟨some 5, [⟨.line, some 2⟩]⟩] [] true]).get 0).shallow = false := by
+  decide
+-- a drawing that only adds a component never looks at the contours: the glyph stays shallow
+example : ((run {} [.reopen [d0, {}, {}] [] none, .draw 0 [] [⟨9, some 6⟩] false]).get 0).shallow = true := by decide
 example : Op.looksFirst (.clearContours 0) = some 0 ∧
     (((run {} [.reopen [d0, {}, {}] [] none]).load 0).get 0).shallow = false ∧
     ((run {} [.reopen [d0, {}, {}] [] none]).get 0).shallow = true := by decide
